@@ -2,6 +2,7 @@ import LexVerif.Proof.SlowCompose
 import LexVerif.Model.SlowBytes
 import LexVerif.Proof.LitBits
 import LexVerif.Proof.SlowLimbs
+import LexVerif.Proof.SlowTruncation
 /-!
 # C01 / C05 — the big-integer slow path (`slow.rs`, `bigint.rs`) is correctly rounded (property theorems)
 
@@ -30,9 +31,10 @@ Proved here, for **all** digit strings, exponents, float types `f32`/`f64`, the 
   `value_untruncated` / `value_zero_tail`: the rounded number is the exact value of the **whole** digit string when
   at most `max_digits` digits are significant or only zeros are cut.
 
-Not proved (kept as `Prop`s): `truncation_invariant` — replacing a non-zero cut tail by a single `1` digit does not
-change the rounding (needs "no half-way point has more than `max_digits − 1` digits", `Spec.PowerTables.midpointDigitsLe`,
-linked to `roundNE`); `slow_radix_correct_full`; `byte_comp` (odd radices) — correspondence only
+* `truncation_invariant_proved` — replacing a non-zero cut tail by a single `1` digit does not change the rounding
+  (`Proof.SlowTruncation`: no half-way point has more than `max_digits` digits), hence `slow_radix_correct_full_proved`.
+
+Not proved: `byte_comp` (odd radices) — correspondence only
 (`byte_comp_lowercase_regression`: the lower-case defect this model exposed, fixed in /repo 6651793).
 -/
 namespace LexVerif.Props.C01Slow
@@ -60,8 +62,8 @@ theorem envRadix_facts {E : Env} {r : Nat} (h : EnvRadix E r) :
     · subst hr; decide
     · exact hall r hr
   refine ⟨h2.1, h2.2, ?_, ?_⟩
-  · rcases h with ⟨hE | hE, _⟩ | ⟨hE | hE, _⟩ <;> subst hE <;> rfl
-  · rcases h with ⟨hE | hE, _⟩ | ⟨hE | hE, _⟩ <;> subst hE <;> decide
+  · rcases h with ⟨hE | hE | hE, _⟩ | ⟨hE | hE, _⟩ <;> subst hE <;> rfl
+  · rcases h with ⟨hE | hE | hE, _⟩ | ⟨hE | hE, _⟩ <;> subst hE <;> decide
 
 theorem maxDigits_facts {E : Env} {r : Nat} (h : EnvRadix E r) {F : FTy} (hF : IsFloat F) {d : Nat}
     (hd : E.S.maxDigits F.fmt r = some d) : 0 < d ∧ r ^ (d + 1) ≤ 2 ^ (64 * E.L.bigintLimbs) := by
@@ -129,7 +131,7 @@ theorem positive_guard_decimal {E : Env} (h : EnvRadix E 10) {M c e : Nat} (hM :
   apply positive_guard (by decide) hM
   have h1 : 10 ^ (c + e) ≤ 10 ^ 400 := Nat.pow_le_pow_right (by decide) hce
   have h2 : 10 ^ 400 ≤ 2 ^ (64 * E.L.bigintLimbs) := by
-    rcases h with ⟨hE | hE, _⟩ | ⟨hE | hE, _⟩ <;> subst hE <;> decide +kernel
+    rcases h with ⟨hE | hE | hE, _⟩ | ⟨hE | hE, _⟩ <;> subst hE <;> decide +kernel
   omega
 
 /-! ## (c) `negative_digit_comp` -/
@@ -272,6 +274,89 @@ theorem negative_digit_comp_correct_weak {E : Env} {r : Nat} (h : EnvRadix E r) 
   exact negativeDigitComp_correct_weak lay hden hdbg (show r = 2 * (r / 2) by omega) Th T2 hM fp hm1 hm2 hp2 hfe
     he he' _ _ rfl rfl hfin hlo hhi hg.1 hg.2
 
+/-- `roundedDown` of an estimate below the underflow cut is `+0` -/
+theorem roundedDown_tiny {F : FTy} {p eb : Nat} (lay : Layout F p eb) (fp : ExtendedFloat80) (hm2 : fp.mant < 2 ^ 64)
+    (hp2 : -fp.exp + 1 > 64) : roundedDown F fp = 0 := by
+  unfold roundedDown
+  rw [round_roundDown F fp hm2, round_tiny lay fp.mant fp.exp _ hm2 hp2, upOf_false]
+  exact LexVerif.Proof.BinaryCorrect.ext_zero lay
+
+/-- **(c) for every estimate**, weak-bracket form, **no lower bound on the estimate's exponent**: above the underflow
+cut as `negative_digit_comp_correct_weak`; below it (`−exp + 1 > 64`, where `shared::round` clamps the shift to 64)
+`b = +0`, `b + h` is half the least subnormal and the result is `0` or the least subnormal accordingly -/
+theorem negative_digit_comp_correct_all {E : Env} {r : Nat} (h : EnvRadix E r) {F : FTy} {p eb : Nat}
+    (lay : Layout F p eb) (hden : F.C.denormalExponent = 1 - F.C.exponentBias)
+    {M : Nat} (hM : M ≠ 0) (fp : ExtendedFloat80) (hm1 : 2 ^ 63 ≤ fp.mant) (hm2 : fp.mant < 2 ^ 64)
+    (hfe : fp.exp < 2 ^ 20) {e : Int} (he : e < 0) (he' : -(2 ^ 28 : Int) < e)
+    (hfin : roundedDown F fp < F.fmt.infBits) (hbr : WeakBracket F fp M (r ^ (-e).toNat))
+    (hg : NegGuard E F p r M fp e) :
+    ∃ res, negativeDigitComp E F r M fp e = some res ∧ 0 ≤ res.exp ∧
+      extendedToFloat F res = roundNE F.fmt M (r ^ (-e).toNat) := by
+  by_cases hp2 : -fp.exp + 1 ≤ 64
+  · exact negative_digit_comp_correct_weak h lay hden hM fp hm1 hm2 hp2 hfe he he' hfin hbr hg
+  · obtain ⟨hr2, hev, hdbg, _⟩ := envRadix_facts h
+    obtain ⟨_, Th, T2⟩ := bigPowOk_of_envRadix h
+    have hp := lay.hp; have hp64 := lay.hp64; have heb := lay.heb
+    have hk0 : (fp.exp + 64 - p - 1).toNat = 0 := by omega
+    have hq0 : fp.mant / 2 ^ shiftOf p fp.exp = 0 := by
+      apply Nat.div_eq_of_lt
+      have hs : 64 ≤ shiftOf p fp.exp := by unfold shiftOf; split <;> omega
+      exact Nat.lt_of_lt_of_le hm2 (Nat.pow_le_pow_right (by decide) hs)
+    unfold NegGuard at hg
+    rw [hk0, hq0] at hg
+    obtain ⟨_, hhi⟩ := hbr
+    rw [roundedDown_tiny lay fp hm2 (by omega)] at hhi
+    exact negativeDigitComp_tiny_weak lay hden hdbg (show r = 2 * (r / 2) by omega) Th T2 hM fp hm2 (by omega) he he'
+      (by simpa using hhi) hg.1 hg.2
+
+/-- the capacity guard when the estimate rounds down to `+∞`: `b + h` is `(2·2^(p−1) + 1)·2^(2^eb − 2 − bias)` -/
+def NegGuardInf (E : Env) (F : FTy) (p radix M : Nat) (e : Int) : Prop :=
+  (2 * 2 ^ (p - 1) + 1) * (radix / 2) ^ (-e).toNat *
+      2 ^ (((2 ^ F.fmt.ebits - 2 : Nat) : Int) - F.C.exponentBias - e).toNat < 2 ^ (64 * E.L.bigintLimbs) ∧
+  M * 2 ^ (-(((2 ^ F.fmt.ebits - 2 : Nat) : Int) - F.C.exponentBias - e)).toNat < 2 ^ (64 * E.L.bigintLimbs)
+
+/-- the two big integers of `negative_digit_comp` fit: for a finite round-down `NegGuard`, for `+∞` `NegGuardInf` -/
+def NegFit (E : Env) (F : FTy) (p radix M : Nat) (fp : ExtendedFloat80) (e : Int) : Prop :=
+  (roundedDown F fp < F.fmt.infBits ∧ NegGuard E F p radix M fp e) ∨
+  (roundedDown F fp = F.fmt.infBits ∧ NegGuardInf E F p radix M e)
+
+/-- **(c) total**: every normalised estimate — below the underflow cut, finite, or rounding down to `+∞` — that
+weakly brackets the value, with the capacity guard that belongs to its case -/
+theorem negative_digit_comp_correct_total {E : Env} {r : Nat} (h : EnvRadix E r) {F : FTy} {p eb : Nat}
+    (lay : Layout F p eb) (hden : F.C.denormalExponent = 1 - F.C.exponentBias)
+    {M : Nat} (hM : M ≠ 0) (fp : ExtendedFloat80) (hm1 : 2 ^ 63 ≤ fp.mant) (hm2 : fp.mant < 2 ^ 64)
+    (hfe : fp.exp < 2 ^ 20) {e : Int} (he : e < 0) (he' : -(2 ^ 28 : Int) < e)
+    (hbr : WeakBracket F fp M (r ^ (-e).toNat)) (hg : NegFit E F p r M fp e) :
+    ∃ res, negativeDigitComp E F r M fp e = some res ∧ 0 ≤ res.exp ∧
+      extendedToFloat F res = roundNE F.fmt M (r ^ (-e).toNat) := by
+  rcases hg with ⟨hfin, hg⟩ | ⟨hinf, hg⟩
+  · exact negative_digit_comp_correct_all h lay hden hM fp hm1 hm2 hfe he he' hfin hbr hg
+  · obtain ⟨hr2, hev, hdbg, _⟩ := envRadix_facts h
+    obtain ⟨_, Th, T2⟩ := bigPowOk_of_envRadix h
+    have hfp : F.fmt.p = p := by rw [lay.fmt]
+    have hpos := LexVerif.Proof.RoundNE.infBits_pos lay.wf
+    have hp2 : -fp.exp + 1 ≤ 64 := by
+      apply Classical.byContradiction; intro hcon
+      rw [roundedDown_tiny lay fp hm2 (by omega)] at hinf
+      omega
+    have hov : F.fmt.infBits ≤ (fp.exp + 64 - p - 1).toNat * 2 ^ (p - 1) + fp.mant / 2 ^ shiftOf p fp.exp := by
+      unfold roundedDown at hinf
+      rw [round_down_bits lay fp hm1 hm2 hp2] at hinf
+      unfold encode at hinf
+      rw [hfp] at hinf
+      split at hinf
+      · assumption
+      · omega
+    have hval : roundNE F.fmt M (r ^ (-e).toNat) = F.fmt.infBits := by
+      have := roundNE_le_infBits lay.wf M (Nat.pow_pos (by omega) : 0 < r ^ (-e).toNat)
+      have := hbr.1
+      omega
+    have hfe : F.fmt.ebits = eb := by rw [lay.fmt]
+    unfold NegGuardInf at hg
+    rw [hfe] at hg
+    exact negativeDigitComp_inf lay hden hdbg (show r = 2 * (r / 2) by omega) Th T2 hM fp hm1 hm2 hp2 he he' hov hval
+      hg.1 hg.2
+
 /-! ## (d) `slow_radix` -/
 
 /-- the exponent `digit_comp` gives the big mantissa: leading digit at `radix^sciExp`, `c` digits -/
@@ -293,10 +378,10 @@ theorem slow_radix_correct {E : Env} {r : Nat} (h : EnvRadix E r) {F : FTy} {p e
         r ^ (digitExponent (scientificExponent r n.mantissa n.exponent) (mantissaOf r d (sigBytes n.integer n.fraction)).2).toNat <
         2 ^ (64 * E.L.bigintLimbs))
     (hneg : digitExponent (scientificExponent r n.mantissa n.exponent) (mantissaOf r d (sigBytes n.integer n.fraction)).2 < 0 →
-      2 ^ 63 ≤ fp.mant ∧ fp.mant < 2 ^ 64 ∧ -fp.exp + 1 ≤ 64 ∧ fp.exp < 2 ^ 20 ∧ roundedDown F fp < F.fmt.infBits ∧
+      2 ^ 63 ≤ fp.mant ∧ fp.mant < 2 ^ 64 ∧ fp.exp < 2 ^ 20 ∧
       WeakBracket F fp (mantissaOf r d (sigBytes n.integer n.fraction)).1
         (r ^ (-digitExponent (scientificExponent r n.mantissa n.exponent) (mantissaOf r d (sigBytes n.integer n.fraction)).2).toNat) ∧
-      NegGuard E F p r (mantissaOf r d (sigBytes n.integer n.fraction)).1 fp
+      NegFit E F p r (mantissaOf r d (sigBytes n.integer n.fraction)).1 fp
         (digitExponent (scientificExponent r n.mantissa n.exponent) (mantissaOf r d (sigBytes n.integer n.fraction)).2)) :
     ∃ res, slowRadix E F radixFeature r n fp = some res ∧ 0 ≤ res.exp ∧
       extendedToFloat F res = roundNE F.fmt
@@ -351,8 +436,8 @@ theorem slow_radix_correct {E : Env} {r : Nat} (h : EnvRadix E r) {F : FTy} {p e
   · rw [if_pos he, if_pos he]
     exact positive_digit_comp_correct h hF hMpos he (by omega) (hpos he)
   · rw [if_neg he, if_neg he]
-    obtain ⟨a1, a2, a3, a4, a5, a6, a7⟩ := hneg (by omega)
-    exact negative_digit_comp_correct_weak h lay hden hMpos fp a1 a2 a3 a4 (by omega) (by omega) a5 a6 a7
+    obtain ⟨a1, a2, a4, a6, a7⟩ := hneg (by omega)
+    exact negative_digit_comp_correct_total h lay hden hMpos fp a1 a2 a4 (by omega) (by omega) a6 a7
 
 /-! ## the value that is rounded -/
 
@@ -428,14 +513,125 @@ theorem value_zero_tail {f : Fmt} (hf : WF f) {radix : Nat} (hr : 0 < radix) (d 
   have : sciExp + 1 - (bs.length : Int) + ((bs.length - d : Nat) : Int) = sciExp + 1 - (d : Int) := by omega
   rw [this]
 
-/-- **not proved**: a non-zero cut tail may be replaced by a single digit `1` without changing the rounding — the
-purpose of `max_digits` (no half-way point between two floats has that many significant digits) -/
+/-- a non-zero cut tail may be replaced by a single digit `1` without changing the rounding — the purpose of
+`max_digits` (no half-way point between two floats has that many significant digits). The digit string starts with a
+non-zero digit (as `sigBytes` does). **Proved**: `truncation_invariant_proved`. -/
 def truncation_invariant : Prop :=
   ∀ (E : Env) (r : Nat), EnvRadix E r → ∀ (F : FTy), IsFloat F → ∀ d, E.S.maxDigits F.fmt r = some d →
-    ∀ (bs : List Nat) (sciExp : Int), ValidDigits r bs → d < bs.length → anyNonzero (bs.drop d) = true →
+    ∀ (bs : List Nat) (sciExp : Int), ValidDigits r bs → (∀ c ∈ bs, c < 256) → (∀ c cs, bs = c :: cs → c ≠ 48) →
+      d < bs.length → anyNonzero (bs.drop d) = true →
       roundNE F.fmt (powFrac r (digitExponent sciExp (mantissaOf r d bs).2) (mantissaOf r d bs).1).1
           (powFrac r (digitExponent sciExp (mantissaOf r d bs).2) (mantissaOf r d bs).1).2 =
         roundNE F.fmt (sigValue r bs sciExp).1 (sigValue r bs sciExp).2
+
+/-- a digit string with a non-zero byte has a non-zero value -/
+theorem ofDigits_pos_of_anyNonzero {radix : Nat} (hr : 0 < radix) :
+    ∀ (bs : List Nat), (∀ c ∈ bs, c < 256) → anyNonzero bs = true → 0 < ofDigits radix (dv radix bs)
+  | [], _, h => by simp [anyNonzero] at h
+  | c :: cs, hb, h => by
+    simp only [dv, List.map_cons]
+    rw [ofDigits_cons]
+    by_cases h48 : c = 48
+    · have : anyNonzero cs = true := by
+        unfold anyNonzero at h ⊢
+        simpa [h48] using h
+      have := ofDigits_pos_of_anyNonzero hr cs (fun x hx => hb x (List.mem_cons_of_mem _ hx)) this
+      unfold dv at this
+      omega
+    · have hd := digitVal_ne_zero (radix := radix) (hb c (List.mem_cons_self ..)) h48
+      have : 0 < Binary.digitVal c radix * radix ^ (List.map (fun c => Binary.digitVal c radix) cs).length :=
+        Nat.mul_pos (Nat.pos_of_ne_zero hd) (Nat.pow_pos hr)
+      omega
+
+/-- a digit string starting with a non-zero digit is at least `radix^(length − 1)` -/
+theorem ofDigits_ge_of_head {radix : Nat} {c : Nat} {cs : List Nat} (hc : c < 256) (h48 : c ≠ 48) :
+    radix ^ cs.length ≤ ofDigits radix (dv radix (c :: cs)) := by
+  have hd := digitVal_ne_zero (radix := radix) hc h48
+  simp only [dv, List.map_cons]
+  rw [ofDigits_cons, List.length_map]
+  have : 1 * radix ^ cs.length ≤ Binary.digitVal c radix * radix ^ cs.length := Nat.mul_le_mul_right _ (by omega)
+  omega
+
+/-- **`truncation_invariant` holds**: `Proof.SlowTruncation.roundNE_const_between` with the two table facts that define
+`max_digits` (`Proof.SlowTables.halfwayB`, evaluated for every build and radix with a digit limit) -/
+theorem truncation_invariant_proved : truncation_invariant := by
+  intro E r h F hF d hd bs sciExp hv hb256 hhead hlen hz
+  obtain ⟨hr2, hev, _, _⟩ := envRadix_facts h
+  have hw := halfway_of_envRadix h
+  unfold halfwayB at hw
+  simp only [List.all_cons, List.all_nil, Bool.and_true, Bool.and_eq_true] at hw
+  have hf : WF F.fmt := by rcases hF with hF | hF <;> subst hF <;> first | exact wf_f64 | exact wf_f32
+  have hfacts : 1 ≤ d ∧ 2 ^ (F.fmt.p + 1) * 2 ^ (F.fmt.maxExpField - 2 - (L F.fmt + 1)) ≤ r ^ d ∧
+      2 ^ (F.fmt.p + 1) * (r / 2) ^ (L F.fmt + 1) ≤ r ^ d := by
+    rcases hF with hF | hF <;> subst hF
+    · have := hw.2
+      rw [show FTy.f64.fmt = f64 from rfl] at hd ⊢
+      rw [hd] at this
+      simpa [Bool.and_eq_true, and_assoc] using this
+    · have := hw.1
+      rw [show FTy.f32.fmt = f32 from rfl] at hd ⊢
+      rw [hd] at this
+      simpa [Bool.and_eq_true, and_assoc] using this
+  obtain ⟨hd1, hi, hii⟩ := hfacts
+  have hrpos : 0 < r := by omega
+  unfold mantissaOf sigValue digitExponent
+  rw [if_neg (by omega), hz]
+  simp only [if_true]
+  -- the digits
+  have hsplit : ofDigits r (dv r bs) =
+      ofDigits r (dv r (bs.take d)) * r ^ (bs.length - d) + ofDigits r (dv r (bs.drop d)) := by
+    conv => lhs; rw [← List.take_append_drop d bs]
+    rw [ofDigits_dv_append, List.length_drop]
+  have htail1 := ofDigits_pos_of_anyNonzero hrpos (bs.drop d) (fun c hc => hb256 c (List.mem_of_mem_drop hc)) hz
+  have htail2 := ofDigits_dv_lt (valid_drop hv d)
+  rw [List.length_drop] at htail2
+  have hP : r ^ (d - 1) ≤ ofDigits r (dv r (bs.take d)) := by
+    cases hbs : bs with
+    | nil => rw [hbs] at hlen; simp at hlen
+    | cons c cs =>
+      have h48 := hhead c cs hbs
+      have hc : c < 256 := hb256 c (by rw [hbs]; exact List.mem_cons_self ..)
+      obtain ⟨d', rfl⟩ : ∃ d', d = d' + 1 := ⟨d - 1, by omega⟩
+      rw [List.take_succ_cons]
+      have := ofDigits_ge_of_head (radix := r) (cs := cs.take d') hc h48
+      rw [List.length_take, Nat.min_eq_left (by rw [hbs] at hlen; simp at hlen; omega)] at this
+      simpa using this
+  generalize hPv : ofDigits r (dv r (bs.take d)) = P at *
+  generalize htl : ofDigits r (dv r (bs.drop d)) = tl at *
+  generalize hS : ofDigits r (dv r bs) = S at *
+  obtain ⟨m, hm⟩ : ∃ m, bs.length - d = m + 1 := ⟨bs.length - d - 1, by omega⟩
+  rw [hm] at hsplit htail2
+  -- both mantissas, at the exponent of the whole string, lie strictly between `P·r^(m+1)` and `(P+1)·r^(m+1)`
+  have hshift := roundNE_powFrac_shift hf hrpos (P * r + 1) m (sciExp + 1 - (bs.length : Int))
+  have hexp : sciExp + 1 - (bs.length : Int) + (m : Int) = sciExp + 1 - ((d + 1 : Nat) : Int) := by omega
+  rw [hexp] at hshift
+  rw [← hshift]
+  have key := LexVerif.Proof.Truncation.roundNE_const_between hf (show r = 2 * (r / 2) by omega) (by omega) hd1 hi hii
+    P (m + 1) ((P * r + 1) * r ^ m) S hP (by omega)
+    (by
+      have : (P * r + 1) * r ^ m = P * r ^ (m + 1) + r ^ m := by rw [Nat.pow_succ]; ring
+      have := Nat.pow_pos hrpos (n := m)
+      omega)
+    (by
+      have e1 : (P * r + 1) * r ^ m = P * r ^ (m + 1) + r ^ m := by rw [Nat.pow_succ]; ring
+      have e2 : (P + 1) * r ^ (m + 1) = P * r ^ (m + 1) + r ^ m * r := by rw [Nat.pow_succ]; ring
+      have : r ^ m * 1 < r ^ m * r := Nat.mul_lt_mul_of_pos_left (by omega) (Nat.pow_pos hrpos)
+      omega)
+    (by omega)
+    (by
+      have e2 : (P + 1) * r ^ (m + 1) = P * r ^ (m + 1) + r ^ (m + 1) := by ring
+      omega)
+    (sciExp + 1 - (bs.length : Int)).toNat (-(sciExp + 1 - (bs.length : Int))).toNat
+  unfold powFrac
+  by_cases hx : 0 ≤ sciExp + 1 - (bs.length : Int)
+  · rw [if_pos hx, if_pos hx]
+    have e0 : (-(sciExp + 1 - (bs.length : Int))).toNat = 0 := by omega
+    rw [e0, Nat.pow_zero] at key
+    exact key
+  · rw [if_neg hx, if_neg hx]
+    have e0 : (sciExp + 1 - (bs.length : Int)).toNat = 0 := by omega
+    rw [e0, Nat.pow_zero, Nat.mul_one, Nat.mul_one] at key
+    exact key
 
 /-- **full statement** (a `Prop`): `slow_radix` returns the correctly rounded value of the complete digit string for
 every build, radix with a digit limit, float type and input satisfying the moderate path's contract.
@@ -451,10 +647,10 @@ def slow_radix_correct_full : Prop :=
         r ^ (digitExponent (scientificExponent r n.mantissa n.exponent) (mantissaOf r d (sigBytes n.integer n.fraction)).2).toNat <
         2 ^ (64 * E.L.bigintLimbs)) →
     (digitExponent (scientificExponent r n.mantissa n.exponent) (mantissaOf r d (sigBytes n.integer n.fraction)).2 < 0 →
-      2 ^ 63 ≤ fp.mant ∧ fp.mant < 2 ^ 64 ∧ -fp.exp + 1 ≤ 64 ∧ fp.exp < 2 ^ 20 ∧ roundedDown F fp < F.fmt.infBits ∧
+      2 ^ 63 ≤ fp.mant ∧ fp.mant < 2 ^ 64 ∧ fp.exp < 2 ^ 20 ∧
       WeakBracket F fp (mantissaOf r d (sigBytes n.integer n.fraction)).1
         (r ^ (-digitExponent (scientificExponent r n.mantissa n.exponent) (mantissaOf r d (sigBytes n.integer n.fraction)).2).toNat) ∧
-      NegGuard E F p r (mantissaOf r d (sigBytes n.integer n.fraction)).1 fp
+      NegFit E F p r (mantissaOf r d (sigBytes n.integer n.fraction)).1 fp
         (digitExponent (scientificExponent r n.mantissa n.exponent) (mantissaOf r d (sigBytes n.integer n.fraction)).2)) →
     ∃ res, slowRadix E F radixFeature r n fp = some res ∧ 0 ≤ res.exp ∧
       extendedToFloat F res = roundNE F.fmt
@@ -482,8 +678,13 @@ theorem slow_radix_correct_full_of_truncation (ht : truncation_invariant) : slow
           split
           · exact valid_skipZeros (hvf fr hfr)
           · exact valid_append (valid_skipZeros hvi) (hvf fr hfr)
-      exact ht E r h F hF d hd _ _ hvs (by omega) hz
+      exact ht E r h F hF d hd _ _ hvs hbytes (fun c cs hcs => sigBytes_head hcs) (by omega) hz
     · exact value_zero_tail lay.wf (by omega) d _ _ (by omega) (by simpa using hz)
+
+/-- **`slow_radix_correct_full` holds**: `slow_radix` returns the correctly rounded value of the **complete** digit
+string — any number of digits — for every build, radix with a digit limit and float type, on the stated domain -/
+theorem slow_radix_correct_full_proved : slow_radix_correct_full :=
+  slow_radix_correct_full_of_truncation truncation_invariant_proved
 
 /-! ## non-vacuity: concrete half-way cases evaluated by the kernel -/
 
